@@ -179,6 +179,8 @@ var allRulesLinter = linter.New(
 var cfgFiles []string
 
 // SetScratch creates the small config files the ConfigLoad operation reads.
+var cfgDir = "\x00no-config-dir"
+
 func SetScratch(dir string) {
 	if len(cfgFiles) > 0 || dir == "" {
 		return
@@ -187,6 +189,7 @@ func SetScratch(dir string) {
 	if os.MkdirAll(d, 0o755) != nil {
 		return
 	}
+	cfgDir = d
 	for name, body := range map[string]string{
 		"a.json": `{"format":{"indent":4},"validation":{"dialect":"mysql"}}`,
 		"b.yaml": "format:\n  indent: 3\nvalidation:\n  dialect: sqlite\n",
@@ -418,7 +421,8 @@ func (o Op) Exec(hold bool) (res string, held []Held) {
 			break
 		}
 		c, err := config.LoadFromFileCached(cfgFiles[o.Flag%len(cfgFiles)])
-		res = "cfg=" + canon.Of(c) + " err=" + canon.Err(err)
+		// the directory name carries the process id: not part of the result
+		res = strings.ReplaceAll("cfg="+canon.Of(c)+" err="+canon.Err(err), cfgDir, "<cfgdir>")
 		if c != nil {
 			keep("config", c.Clone(), nil)
 			// the returned config belongs to the caller, who may change it: the cache
